@@ -256,7 +256,8 @@ class KernExporter(object):
         symbols = ""
         if not isinstance(element, spt.Rest):
             if element.tie_next and element.tie_prev:
-                symbols += "-"
+                # middle of a tie chain ("-" would be read as a flat sign)
+                symbols += "_"
             elif element.tie_next:
                 symbols += "["
             elif element.tie_prev:
